@@ -344,7 +344,8 @@ pub fn factor_quartic_inner(
     };
     let calc_eps_t = |a1, b1, a2, b2| calc_eps_q(a1, b1, a2, b2) + eps_rel(b1 * b2, d);
     let disc = 9. * a * a - 24. * b;
-    let s = if disc >= 0.0 {
+    // a == b == 0 (x^4 + c x + d) would give 0 / 0 here; the shift is then zero.
+    let s = if disc >= 0.0 && (a != 0.0 || b != 0.0) {
         -2. * b / (3. * a + disc.sqrt().copysign(a))
     } else {
         -0.25 * a
@@ -416,7 +417,13 @@ pub fn factor_quartic_inner(
     let mut alpha_2;
     let mut beta_2;
     //println!("phi = {}, d_2 = {}", phi, d_2);
-    if d_2 < 0.0 {
+    // When the two quadratic factors have (nearly) the same linear coefficient, d_2 vanishes
+    // up to rounding; its computed sign and l_2 = delt_2 / (2 d_2) are then meaningless.
+    // Treat it as zero, as the reference implementation of the paper does.
+    const EPS_M: f64 = 2.22045e-16;
+    let d_2_negligible =
+        d_2.abs() <= 8. * EPS_M * ((2. / 3.) * b).abs().max(phi.abs()).max(l_1 * l_1);
+    if d_2 < 0.0 && !d_2_negligible {
         let sq = (-d_2).sqrt();
         alpha_1 = l_1 + sq;
         beta_1 = l_3 + sq * l_2;
@@ -461,7 +468,7 @@ pub fn factor_quartic_inner(
                 }
             }
         }
-    } else if d_2 == 0.0 {
+    } else if d_2 == 0.0 || d_2_negligible {
         let d_3 = d - l_3 * l_3;
         alpha_1 = l_1;
         beta_1 = l_3 + (-d_3).sqrt();
